@@ -1056,7 +1056,7 @@ def library_seed_stream(ctx, res: Result) -> None:
     fac = factory()
     lines, cases = [], []
     for algo in SEEDED_FOR_SEQ:
-        for _ in range(3 if ctx.thorough else 1):
+        for _ in range(4 if ctx.thorough else 2):
             dim = rng.randint(1, 3)
             space = gen_space(rng, dim, "exact")
             n = 24 if algo == "OT_SOBOL_INDICES" else rng.pick([5, 8, 12])
@@ -1065,57 +1065,71 @@ def library_seed_stream(ctx, res: Result) -> None:
             cases.append((algo, space, n, seq, use_exec))
             lines.append("seeder 0 " + ",".join("_" if r is None else str(r) for r in seq))
     answers = common.run_lean_driver(PID, lines)
-    from gemseo.algos.optimization_problem import OptimizationProblem
-    from gemseo.core.mdo_functions.mdo_function import MDOFunction
-
     for (algo, space, n, seq, use_exec), line, ans in zip(cases, lines, answers):
         res.evaluations += 1
         res.count("library-seed-sequence")
         res.count(f"seedseq-algo={algo}")
-        lib = fac.create(algo)
-        ds = build_space(space)
-        outs, counters = [], []
-        try:
-            for s, ex in zip(seq, use_exec):
-                req = {"algo": algo, "n": n, "seed": s, "opts": {}}
-                if ex:
-                    pb = OptimizationProblem(build_space(space))
-                    pb.objective = MDOFunction(lambda x: np.array([float(np.sum(x))]), "f")
-                    lib.execute(pb, **settings_of(space, req))
-                    outs.append(np.array(lib.samples))
-                else:
-                    outs.append(np.array(lib.compute_doe(ds, **settings_of(space, req))))
-                counters.append(lib.seed)
-            # references: a fresh library and an explicit seed
-            refs = {}
-            for k in sorted({(s if s is not None else i + 1) for i, s in enumerate(seq)}):
-                refs[k] = np.array(fac.create(algo).compute_doe(build_space(space), **settings_of(space, {"algo": algo, "n": n, "seed": k, "opts": {}})))
-        except Exception as e:  # noqa: BLE001
-            res.violate("oracle", "valid-request-rejected", f"{algo}: seeded sequence raised {e!r}"[:300],
-                        {"space": space, "algo": algo, "n": n, "seed_sequence": seq})
+        if 0 in seq:
+            res.count("seedseq-with-explicit-seed-0" + ("-repeated" if seq.count(0) > 1 else ""))
+        bad, counters, eff = run_seed_sequence(algo, space, n, seq, use_exec)
+        for key, msg in bad:
+            res.violate("oracle", key, msg, {"space": space, "algo": algo, "n": n, "seed_sequence": seq, "exec_calls": use_exec})
+        if counters is None:
             continue
-        eff = [s if s is not None else i + 1 for i, s in enumerate(seq)]
-        ok = True
-        for i, (x, k) in enumerate(zip(outs, eff)):
-            if x.shape != refs[k].shape or not np.array_equal(x, refs[k]):
-                res.violate("oracle", "seed-semantics",
-                            f"{algo}: call {i} of the sequence {seq} (effective seed {k}) differs from a fresh library with seed={k}",
-                            {"space": space, "algo": algo, "n": n, "seed_sequence": seq, "exec_calls": use_exec})
-                ok = False
-                break
-        if counters != [i + 1 for i in range(len(seq))]:
-            res.violate("oracle", "seed-counter", f"{algo}: library seed counter {counters} after the calls {seq}",
-                        {"space": space, "algo": algo, "n": n, "seed_sequence": seq})
-            ok = False
         a = parse_answer(ans)
         res.nontrivial(line + algo)
         if a.get("seeds") != ",".join(str(k) for k in eff) or int(a.get("final", -1)) != counters[-1]:
             res.disagreements += 1
-            if ok:
+            if not bad:
                 res.violate("correspondence", "seeder-model-vs-impl", "library seed sequence differs from the model",
                             {"protocol_line": line, "impl": {"effective": eff, "counter": counters}, "model": ans})
         else:
             res.traces_validated += 1
+
+
+def run_seed_sequence(algo, space, n, seq, use_exec):
+    """One library object used for the calls `seq` (None = default seed): (failures, counters, effective seeds).
+
+    Oracle: call i equals the generation of a *fresh* library with the effective seed made explicit
+    (explicit seed, else initial + i + 1), and every pair of calls with the same effective seed is equal."""
+    from gemseo.algos.optimization_problem import OptimizationProblem
+    from gemseo.core.mdo_functions.mdo_function import MDOFunction
+
+    fac = factory()
+    lib = fac.create(algo)
+    ds = build_space(space)
+    outs, counters = [], []
+    eff = [s if s is not None else i + 1 for i, s in enumerate(seq)]
+    try:
+        for s, ex in zip(seq, use_exec):
+            req = {"algo": algo, "n": n, "seed": s, "opts": {}}
+            if ex:
+                pb = OptimizationProblem(build_space(space))
+                pb.objective = MDOFunction(_objective, "f")
+                lib.execute(pb, **settings_of(space, req))
+                outs.append(np.array(lib.samples))
+            else:
+                outs.append(np.array(lib.compute_doe(ds, **settings_of(space, req))))
+            counters.append(lib.seed)
+        # references: a fresh library and an explicit seed
+        refs = {}
+        for k in sorted(set(eff)):
+            refs[k] = np.array(fac.create(algo).compute_doe(build_space(space), **settings_of(space, {"algo": algo, "n": n, "seed": k, "opts": {}})))
+    except Exception as e:  # noqa: BLE001
+        return [("valid-request-rejected", f"{algo}: seeded sequence raised {e!r}"[:300])], None, eff
+    bad = []
+    for i, (x, k) in enumerate(zip(outs, eff)):
+        if x.shape != refs[k].shape or not np.array_equal(x, refs[k]):
+            bad.append(("seed-semantics", f"{algo}: call {i} of the sequence {seq} (effective seed {k}) differs from a fresh library with seed={k}"))
+            break
+    for i in range(len(outs)):
+        j = next((j for j in range(i) if eff[j] == eff[i]), None)
+        if j is not None and (outs[i].shape != outs[j].shape or not np.array_equal(outs[i], outs[j])):
+            bad.append(("not-reproducible", f"{algo}: calls {j} and {i} of the sequence {seq} on one library have the same settings and seed {eff[i]} but differ"))
+            break
+    if counters != [i + 1 for i in range(len(seq))]:
+        bad.append(("seed-counter", f"{algo}: library seed counter {counters} after the calls {seq}"))
+    return bad, counters, eff
 
 
 # --------------------------------------------------------------------------- count rules and own designs
@@ -1490,7 +1504,11 @@ def replay(path: str) -> int:
         print(f"levels({n},{d}) = {k}; largest power <= n: {ok}")
         return 0 if ok else 1
     if "seed_sequence" in rp:
-        print(json.dumps(rp, indent=1, default=str))
-        return 1
+        seq = rp["seed_sequence"]
+        bad, counters, eff = run_seed_sequence(rp["algo"], rp["space"], rp["n"], seq, rp.get("exec_calls") or [False] * len(seq))
+        print("library", rp["algo"], "on", varspecs(rp["space"]), "n =", rp["n"], "seeds", seq, "effective", eff, "counters", counters)
+        for k, m in bad:
+            print("ORACLE FAILS:", k, m)
+        return 1 if bad else 0
     print(json.dumps(rp, indent=1, default=str)[:3000])
     return 1
